@@ -205,6 +205,31 @@ func c05(r *Report) {
 		}
 	})
 
+	r.Guard("C05.R1", "a decrypted request is forwarded upstream over TLS: the proxy leaves the transport's TLS dialling alone", func() {
+		// an https request goes out through Transport.Dial + the transport's own TLS handshake (or the
+		// DialTLS hook its owner installed); the proxy core may set Dial, never the TLS dial hooks
+		n := 0
+		for _, f := range w.Funcs("", "mitm") {
+			for _, in := range instrs(f) {
+				st, isSt := in.(*ssa.Store)
+				if !isSt {
+					continue
+				}
+				fa, isFa := st.Addr.(*ssa.FieldAddr)
+				if !isFa || namedOf(fa.X.Type()) != "Transport" {
+					continue
+				}
+				n++
+				switch fieldObj(fa).Name() {
+				case "DialTLS", "DialTLSContext":
+					r.Fail("callgraph", fnName(f)+" assigns net/http.Transport."+fieldObj(fa).Name(), "the proxy replaces the transport's TLS dial hook: connections to https origins are opened by a function that performs no TLS handshake, and every decrypted request is written upstream in cleartext while modifiers still see https", nil, st.Pos())
+				}
+				r.Touch(f)
+			}
+		}
+		r.Decide("callgraph", "the proxy core configures its transport's plain dial only", n >= 2, fmt.Sprintf("%d stores to Transport fields, none to a TLS dial hook", n), "no store to a Transport field found: the anchor moved", token.NoPos)
+	})
+
 	r.Guard("C05.R2", "every request of a tunnel is read on the upgraded connection: TLS state attached exactly when the connection is TLS, and the loop follows the session's connection", func() {
 		// stores to req.TLS
 		forms := map[string]bool{}
@@ -464,6 +489,7 @@ func c05(r *Report) {
 
 	r.Guard("C05.R6", "the tunnel's authority is used: as certificate host when SNI is absent and as URL host when the request has none", func() {
 		tlsConfigFreshRule(r)
+		connectAuthorityKeptRule(r)
 		// TLSForHost(req.Host) of the CONNECT request
 		ok := false
 		var pos token.Pos = hcr.Pos()
